@@ -95,8 +95,10 @@ pub fn run_json(case: &Value) -> Value {
         let raw = unhex(case["hex"].as_str().unwrap());
         std::fs::write(&p, &raw).unwrap();
         // raw file bytes: the tree is taken from what the bytes decompress to, if they do
+        // ("notree": the case measures memory, the harness must not decompress the input itself)
         let mut text = String::new();
-        if flate2::read::GzDecoder::new(&raw[..]).read_to_string(&mut text).is_ok() {
+        let notree = case.get("notree").and_then(|b| b.as_bool()).unwrap_or(false);
+        if !notree && flate2::read::GzDecoder::new(&raw[..]).read_to_string(&mut text).is_ok() {
             if let Ok(v) = serde_json::from_str::<Value>(&text) {
                 if let Some(tr) = tree_of(&v) {
                     tree = tr;
